@@ -3,6 +3,10 @@
 
 namespace Juniper.Pinned.Heap
 
+/-- `Heap.Grow` in `container/xheap`: signature and full statement list, locals renamed positionally -/
+def pin_container_xheap_Heap_Grow : List String := ["func (r Heap[T]) Grow(p0 int)",
+  "r.inner.Grow(p0)"]
+
 /-- `Heap.Iterate` in `container/xheap`: signature and full statement list, locals renamed positionally -/
 def pin_container_xheap_Heap_Iterate : List String := ["func (r Heap[T]) Iterate() iterator.Iterator[T]",
   "return r.inner.Iterate()"]
@@ -22,6 +26,10 @@ def pin_container_xheap_Heap_Pop : List String := ["func (r Heap[T]) Pop() T",
 /-- `Heap.Push` in `container/xheap`: signature and full statement list, locals renamed positionally -/
 def pin_container_xheap_Heap_Push : List String := ["func (r Heap[T]) Push(p0 T)",
   "r.inner.Push(p0)"]
+
+/-- `Heap.Shrink` in `container/xheap`: signature and full statement list, locals renamed positionally -/
+def pin_container_xheap_Heap_Shrink : List String := ["func (r Heap[T]) Shrink(p0 int)",
+  "r.inner.Shrink(p0)"]
 
 /-- `New` in `container/xheap`: signature and full statement list, locals renamed positionally -/
 def pin_container_xheap_New : List String := ["func New[T0 any](p0 xsort.Less[T0], p1 []T0) Heap[T0]",
